@@ -181,6 +181,8 @@ def judge_bucket(lines, init):
                         bad.append(f"consume {n} admitted but tokens {tokens} -> {t2}")
                 elif n <= tokens:
                     bad.append(f"consume {n} refused although {tokens} tokens were available")
+            if t2 > cap:
+                bad.append(f"{t2} tokens in the bucket after '{' '.join(op)}': a burst above the burst size {cap} would be admitted at once")
             fmin = min(fmin, f)
             if f - fmin > cap:
                 bad.append(f"a window of the schedule admitted {f - fmin} bytes more than ticks*refill, above the capacity {cap} (after '{' '.join(op)}')")
@@ -316,9 +318,9 @@ def rerun(ctx, fam, init_line, ops, tag):
     return C.parse_trace_cases(o).get("s", []), o
 
 
-def shrink(ctx, fam, init_line, ops, consts):
+def shrink(ctx, fam, init_line, ops, consts, need_complaint):
     """delete-one-op shrinking on the real code; a candidate is kept while it is still judged bad
-    (model-free) or still disagrees with the model"""
+    (model-free) or — when the original had no property-level complaint — still disagrees with the model"""
     model = FAMILIES[fam][1]
     def still_bad(cand):
         lines, o = rerun(ctx, fam, init_line, cand, "shrink")
@@ -326,6 +328,8 @@ def shrink(ctx, fam, init_line, ops, consts):
             return False
         if judge_case(fam, lines, consts, {}):
             return True
+        if need_complaint:
+            return False
         if model:
             _, mism, _ = ctx.oracle(model, o)
             return bool(mism)
@@ -349,12 +353,13 @@ def shrink(ctx, fam, init_line, ops, consts):
 def report(ctx, fam, cid, lines, consts, mism_line=None):
     init_line = next((l for l in lines if l.startswith("init")), "init")
     ops = [l[3:] for l in lines if l.startswith("op ")]
-    if mism_line:
+    orig_bad = bool(judge_case(fam, lines, consts, {}))
+    if mism_line and not orig_bad:
         m = re.search(r"step=(\d+)", mism_line)
         if m and int(m.group(1)) > 0:
             ops = ops[:int(m.group(1))]
     if fam in ("recv", "bucket", "shape", "send") and len(ops) > 1:
-        ops = shrink(ctx, fam, init_line, ops, consts)
+        ops = shrink(ctx, fam, init_line, ops, consts, orig_bad)
     flines, o = rerun(ctx, fam, init_line, ops, "final") if fam != "wall" else (lines, None)
     if flines is None:
         flines = lines
@@ -371,6 +376,9 @@ def report(ctx, fam, cid, lines, consts, mism_line=None):
         mm = mism_line or ""
         ops = [l[3:] for l in lines if l.startswith("op ")]
     sig = f"{fam}:{init_line[5:]}:" + ";".join(ops)
+    if fam == "wall":
+        wl = next((l for l in flines if l.startswith("# wall ")), "").split()
+        sig = f"wall:rate={kv(wl, 'rate')} burst={kv(wl, 'burst')} paylen={kv(wl, 'paylen')}"
     if len(sig) > 400:
         import hashlib
         sig = sig[:360] + "#" + hashlib.sha1(sig.encode()).hexdigest()[:12]
@@ -437,11 +445,16 @@ def check(ctx):
         ctx.add_stats(fam, st_p)
         model = FAMILIES[fam][1]
         if model:
-            ocmds.append(["sh", "-c", f"'{C.ORACLE}' {model} < '{out_p}'"])
+            # output goes to a file: C.parallel reads the pipe only after exit, and a broken build produces many MISMATCH lines
+            ocmds.append(["sh", "-c", f"'{C.ORACLE}' {model} < '{out_p}' > '{out_p}.oracle' 2>&1"])
             ometa.append((fam, out_p, model))
     ores = C.parallel(ocmds, timeout=1500)
     mism_by_trace = {}
     for (rc, o), (fam, out_p, model) in zip(ores, ometa):
+        try:
+            o = open(out_p + ".oracle", errors="replace").read()
+        except OSError:
+            o = ""
         m = re.search(r"SUMMARY cases=(\d+) steps=(\d+) mismatches=(\d+)", o or "")
         if not m:
             ctx.violation(f"oracle-crash:{model}", f"rie-oracle {model} produced no summary", (o or "")[-2000:], found_input=False, tag="oracle")
@@ -450,7 +463,7 @@ def check(ctx):
         mism_by_trace[out_p] = [l for l in o.splitlines() if l.startswith("MISMATCH")]
     # judge everything model-free; report mismatches
     table = {}
-    reported = 0
+    with_complaint, only_mismatch = [], []
     for (rc, o), (fam, out_p, st_p) in zip(res, meta):
         if rc != 0:
             continue
@@ -460,11 +473,26 @@ def check(ctx):
             mm = re.match(r"MISMATCH case=(\S+)", l)
             if mm:
                 mism.setdefault(mm.group(1), l)
+        per_fam = 0
         for cid, lines in cases.items():
             complaints = judge_case(fam, lines, consts, table if fam == "recv" else {})
-            if (complaints or cid in mism) and reported < 8:
-                reported += 1
-                report(ctx, fam, cid, lines, consts, mism.get(cid))
+            if complaints and per_fam < 2:
+                per_fam += 1
+                with_complaint.append((fam, cid, lines, mism.get(cid)))
+            elif cid in mism and len(only_mismatch) < 40:
+                only_mismatch.append((fam, cid, lines, mism.get(cid)))
+    # property-level failures first (shortest histories first), then pure model disagreements
+    with_complaint.sort(key=lambda x: len(x[2]))
+    seen_fam = {}
+    for fam, cid, lines, ml in with_complaint:
+        if seen_fam.get(fam, 0) < 2 and len(ctx.violations) < 6:
+            seen_fam[fam] = seen_fam.get(fam, 0) + 1
+            report(ctx, fam, cid, lines, consts, ml)
+    seen_fam = {}
+    for fam, cid, lines, ml in only_mismatch:
+        if seen_fam.get(fam, 0) < 1 and len(ctx.violations) < 6:
+            seen_fam[fam] = seen_fam.get(fam, 0) + 1
+            report(ctx, fam, cid, lines, consts, ml)
     return ctx.finish(level="proof",
         rule="Lean: theorems over all globals/requests/tokens, all payloads, chunkings, reset points and connection budgets, all bucket parameters and schedules (induction). "
              "Tie: seeded request SEQUENCES (1-6 requests, junk written into the package variables in between, each optional header absent / valid / boundary / malformed, "
